@@ -77,6 +77,7 @@ Inductive kind :=
 | KWaiter (t : nat) (ok : bool)
 | KProbeStop (t : nat)
 | KStateSet (t : nat) (orig new : tstate)
+| KDrainBegin (t : nat) (orig : tstate) (timeout : N)       (* Drain entered: state before the mark, drain timeout (ns) *)
 | KDrainSnapshot (t : nat) (inflight : list (nat * bool))   (* request, hijacked *)
 | KDrainDeadline (t : nat)
 | KDrainCancelRest (t : nat)
@@ -84,6 +85,9 @@ Inductive kind :=
 | KSnapCollect (svcs : list nat)
 | KSnapCreate
 | KSnapWrite
+(* identities (emitted by the trace converter when an id first appears) *)
+| KSvcName (svc : nat) (name : str)
+| KTargetName (t : nat) (name : str)
 (* schedule control (harness) *)
 | KParked | KReleased
 | KOther.
